@@ -554,4 +554,41 @@ Split's loop is `Split.run` of the nested one, on the objects its previous runs 
 theorem splitRunOps_run (s : Split σ α) (hv : s.Valid) (buf : List α) :
     (splitRunOps.run s buf).1 = s.run buf := runObj_eq s hv buf
 
+/-! ## 16. non-vacuity of the hypotheses used in this file -/
+
+section demoX
+
+/-- `fill` raises `ValueError` on the value 3; `request` raises `KeyError` after its value -/
+def boomOps : OpsX (List Nat) Nat String :=
+  { call := fun s => ([7], s, none)
+    fill := fun s x => if x = 3 then (s, .raised "ValueError") else (s ++ [x], .ok)
+    compute := fun s => ([s.sum], s, none)
+    request := fun s => ([s.sum], [], some "KeyError")
+    run := fun s xs => (xs, s, none) }
+
+def demoSplitX : SplitX (List Nat) Nat String :=
+  { branches := [⟨0, .sequence, boomOps, []⟩, ⟨1, .fillCompute, boomOps, []⟩], bufsize := some 2, copyBuf := true }
+
+example : demoSplitX.Valid := by simp [SplitX.Valid, demoSplitX]
+-- blocks [1,2] [3,4]: the Sequence yields both blocks, then `fill(3)` of the second branch raises
+example : (demoSplitX.run [1, 2, 3, 4]).term = .raised 1 "ValueError" := by decide
+example : outputs (demoSplitX.run [1, 2, 3, 4]).trace = [1, 2, 3, 4] := by decide
+-- … a proper prefix of the schedule with the exception forgotten (which goes on to `compute()`)
+example : outputs (demoSplitX.forget.runTrace [1, 2, 3, 4]) = [1, 2, 3, 4, 7] := by decide
+-- the raising object is left in `self._seqs` as its last call left it
+example : ((demoSplitX.run [1, 2, 3, 4]).seqs.map (·.st)) = [[], [1, 2]] := by decide
+-- a generator that raises after yielding: the value stays yielded
+example : (({ branches := [⟨0, .fillRequest, boomOps, []⟩], bufsize := none, copyBuf := false } :
+    SplitX (List Nat) Nat String).run [5]).term = .raised 0 "KeyError" := by decide
+example : outputs (({ branches := [⟨0, .fillRequest, boomOps, []⟩], bufsize := none, copyBuf := false } :
+    SplitX (List Nat) Nat String).run [5]).trace = [5] := by decide
+
+-- the objects after a run of the four-kind Split of `Props/C03.lean`: `runFull_seqs`, `run_twice`
+example : ((demoSplit (some 2)).runFull [1, 2, 3]).2.map (·.st) = [[], [], [], [1, 2]] := by decide
+example : runsObj (demoSplit (some 2)) [[1, 2, 3], [9]] =
+    [[101, 102, 3, 7, 8, 103, 3, 3], [109, 9, 7, 8, 3]] := by decide
+example : received (proj 3 ((demoSplit (some 2)).runTrace [1, 2, 3, 4])) = [1, 2, 3] := by decide
+
+end demoX
+
 end Lena.C03
